@@ -22,11 +22,12 @@ MANIFEST = {
                   "concatenation of top-level boxes (box loop of DecodeFileSR, File.Encode in box-tree mode); C01_why_complete / "
                   "C01_explained: the model's list of reasons for not reproducing an input (why_box) is complete -- no reason, then the "
                   "Go encoders' bytes ARE the input; C01_fixpoint (GENERAL, no hypothesis on the reserved bytes): for every slice "
-                  "accepted completely with an exact tree t the Go encoders' bytes enc have the input's length = Size(), decode again "
-                  "to norm_box t (= t up to the captured reserved bytes) and encode to enc again; C01_fixpoint_api: the same on the two "
-                  "API paths (Box.Encode with its per-box capacities and Box.EncodeSW both succeed, with the same bytes, on the "
-                  "decoded and on the re-decoded tree); C01_file_boxtree: the same for a "
-                  "file in box-tree mode; they rest on C01_header_local / C01_leaf_stable: every decoder of the "
+                  "accepted completely with an exact tree t the Go encoders succeed on both API paths (Box.Encode with its per-box "
+                  "capacities and the 2^32 limit, Box.EncodeSW) with the same bytes enc of the input's length = Size(), enc decodes "
+                  "again to norm_box t (= t up to the captured reserved bytes) and encodes to enc again on both paths; "
+                  "C01_file_boxtree: the same for a file (box-tree mode and progressive files: File.Encode = Box.Encode per child "
+                  "in decode order) -- "
+                  "they rest on C01_header_local / C01_leaf_stable: every decoder of the "
                   "dispatch tables is local (never looks behind the bytes it consumes) and print-then-parse holds for every leaf "
                   "kind (decoder applied to the encoder's bytes returns the same value, for all values the decoder can return); "
                   "for esds the exactness guard (hence C01_tree / C01_fixpoint) asks that every descriptor size field is in the encoder's form and "
@@ -240,7 +241,8 @@ def run_search(ctx, exe, args, prop, model=None):
 def run(ctx):
     ctx.cov["trusted_base"] = common.TRUSTED_BASE_COMMON + [
         "model: coq/c01/C01Model.v is a hand transcription of mp4/box.go, boxsr.go, container.go, unknown.go and of the "
-        "DecodeXxxSR / EncodeSW / Size of every modelled kind (see MANIFEST), avc.DecodeAVCDecConfRec, stsd/dref/sample entry "
+        "DecodeXxxSR / EncodeSW / Size of every modelled kind (see MANIFEST), avc.DecodeAVCDecConfRec, hevc.DecodeHEVCDecConfRec, "
+        "mp4/descriptors.go (esds), samplegroupentries.go (sgpd), uuid.go, stsd/dref/sample entry "
         "child loops, moov.AddChild, moof.EncodeSW, edts decode (SliceReader path; io errors not modelled)",
         "c01_dontcare.json: source=model entries regenerated from the model; source=hand entries written by hand",
         "harness/c01/bx: independent box scanner, harvest of testdata boxes, generators, mutators, masks",
